@@ -162,7 +162,7 @@ m('C16', 'async-drops-pieces', AS, "    return \"\".join(res + [repl.child.befor
 m('C16', 'first-line-output-dropped', RW, "            self._expect_prompt(timeout=timeout)\n            res.append(self.child.before)", "            self._expect_prompt(timeout=timeout)\n            res.append(self.child.before[:0])", 'output printed between the lines of a block is dropped')
 # ---- C17
 m('C17', 'password-at-original-prompt', PX, "        if i==2: # password or passphrase\n            self.sendline(password)", "        if i==2 or i==1: # password or passphrase\n            self.sendline(password)", 'password sent when the original prompt is seen')
-m('C17', 'yes-in-phase-two', PX, "            self.close()\n            raise ExceptionPxssh('Weird error. Got \"are you sure\" prompt twice.')", "            self.sendline('yes')", 'yes answered again in phase two')
+m('C17', 'yes-to-terminal-question', PX, "        if i==4:\n            self.sendline(terminal_type)", "        if i==4:\n            self.sendline('yes')", 'yes sent as the answer to the terminal-type question')
 m('C17', 'prompt-reset-failure-swallowed', PX, "            if not self.set_unique_prompt():\n                self.close()", "            if not self.set_unique_prompt() and False:\n                self.close()", 'failure to set the unique prompt ignored')
 m('C17', 'denied-returns-true', PX, "        elif i==3: # permission denied -- password was bad.\n            self.close()\n            raise ExceptionPxssh('permission denied')", "        elif i==3: # permission denied -- password was bad.\n            pass", 'permission denied treated as success')
 m('C17', 'password-twice', PX, "        elif i==2: # password prompt again", "        elif i==2 and self.sendline(password) and False: # password prompt again", 'password sent a second time')
